@@ -509,8 +509,10 @@ class Engine:
             out.setdefault("trig", []).append(
                 {"arg": _model_value(m, a_), "cos": _model_value(m, c_.e), "sin": _model_value(m, s_.e)}
             )
-        if evals:
-            out["evals"] = {k: _model_struct(m, v) for k, v in evals.items()}
+        ev = dict(self.evals)
+        ev.update(evals or {})
+        if ev:
+            out["evals"] = {k: _model_struct(m, v) for k, v in ev.items()}
         return out
 
     # ---- uninterpreted functions with creation-time axioms (true facts only)
